@@ -95,11 +95,17 @@ def as_int_term(v):
         return z3.IntVal(1 if v else 0)
     if isinstance(v, int):
         return z3.IntVal(v)
+    if type(v).__name__ == 'SLow' and v.ub is not None:
+        t = v.t
+        k = max(1, v.ub.bit_length())
+        if k < t.size():
+            t = z3.simplify(z3.Extract(k - 1, 0, t))       # value < 2^k: the low k bits are the value
+        return z3.BV2Int(t, is_signed=False)
     raise Unsupported('not an int: %r' % (v,))
 
 
 def is_intlike(v):
-    return isinstance(v, (SInt, SBool, int)) and not isinstance(v, float)
+    return (isinstance(v, (SInt, SBool, int)) and not isinstance(v, float)) or (type(v).__name__ == 'SLow' and v.ub is not None)
 
 
 def as_bool_term(v):
@@ -371,6 +377,9 @@ class SInt(Sym):
         c = concrete_int(o)
         if c is None:
             c = small_int_case(_ctx(), o)
+        bv = _bv_of_bv2int(self.t)
+        if bv is not None and c >= 0 and bv.size() + c < EXACT_W:
+            return SLow(z3.ZeroExt(EXACT_W - bv.size(), bv), (1 << bv.size()) - 1) << c
         if c < 0:
             from .interp import py_raise
             py_raise(ValueError('negative shift count'))
@@ -400,11 +409,20 @@ class SInt(Sym):
 
     def __and__(self, o):
         c = concrete_int(o)
+        bv = _bv_of_bv2int(self.t)
+        if bv is not None and c is not None and c >= 0:
+            k = c.bit_length()
+            if (c & (c + 1)) == 0 and bv.size() <= k:
+                return self                                # mask keeps every bit
+            return SLow(z3.ZeroExt(EXACT_W - bv.size(), bv), (1 << bv.size()) - 1) & c
         if c is not None:
             if c == 0:
                 return SInt(z3.IntVal(0))
             if c > 0 and (c & (c + 1)) == 0:           # 2^k - 1 : x mod 2^k, any sign
-                return SInt(self.t % z3.IntVal(c + 1))
+                r = _mod_pow2(self.t, c.bit_length())
+                if _bv_of_bv2int(r) is not None:
+                    return SInt(r)
+                return SInt(z3.simplify(r))
             if c > 0:
                 # general non-negative constant mask: sum of selected bits
                 r = z3.IntVal(0)
@@ -426,7 +444,12 @@ class SInt(Sym):
                 return SInt(r)
             if c == -1:
                 return self
-        raise Unsupported('int & non-mask')
+        if isinstance(o, SLow):
+            return o & self
+        if is_intlike(o):
+            ctx = _ctx()
+            return exact_bv(ctx, self) & exact_bv(ctx, o)
+        return NotImplemented
 
     __rand__ = __and__
 
@@ -505,6 +528,8 @@ def bit_or(ctx, a, b):
     ca, cb = concrete_int(a), concrete_int(b)
     if ca is not None and cb is not None:
         return ca | cb
+    if isinstance(a, SLow) or isinstance(b, SLow):
+        return exact_bv(ctx, a) | exact_bv(ctx, b)
     if ca is not None:
         a, b, ca, cb = b, a, cb, ca
     at, bt = as_int_term(a), as_int_term(b)
@@ -520,7 +545,8 @@ def bit_or(ctx, a, b):
             return SInt(at + bt)
         if proves(ctx, z3.And(bt >= 0, bt < m, at % m == 0)):
             return SInt(at + bt)
-    raise Unsupported('int | int with operands not provably bit-disjoint')
+    # bounded non-negative operands: do it on exact bit-vectors
+    return exact_bv(ctx, a) | exact_bv(ctx, b)
 
 
 def bit_xor(ctx, a, b):
@@ -528,14 +554,13 @@ def bit_xor(ctx, a, b):
     ca, cb = concrete_int(a), concrete_int(b)
     if ca is not None and cb is not None:
         return ca ^ cb
+    if isinstance(a, SLow) or isinstance(b, SLow):
+        return exact_bv(ctx, a) ^ exact_bv(ctx, b)
     at, bt = as_int_term(a), as_int_term(b)
     for x, y in ((at, bt), (bt, at)):
         if proves(ctx, z3.Or(y == 0, y == -1)):
             return SInt(z3.If(y == 0, x, -x - 1))
-    try:
-        return bit_or(ctx, a, b)       # disjoint bits: xor == or == +
-    except Unsupported:
-        raise Unsupported('int ^ int outside the supported cases')
+    return exact_bv(ctx, a) ^ exact_bv(ctx, b)
 
 
 def to_real(v):
@@ -758,6 +783,11 @@ class _SeqBase(Sym):
                 ctx = None
             if ctx is not None and proves(ctx, z3.And(lo_t >= 0, lo_t <= hi_t, hi_t <= n)):
                 return z3.simplify(lo_t), z3.simplify(hi_t - lo_t), True
+            if ctx is not None and k.stop is not None and proves(ctx, z3.And(lo_t >= 0, lo_t <= hi_t, lo_t <= n)):
+                # only the upper bound may exceed the length: decide it by forking, so both pieces stay clamp-free
+                if ctx.branch(hi_t <= n):
+                    return z3.simplify(lo_t), z3.simplify(hi_t - lo_t), True
+                return z3.simplify(lo_t), z3.simplify(n - lo_t), True
         s_, ln = _clamp_slice(n, k.start, k.stop)
         return s_, ln, False
 
@@ -968,60 +998,95 @@ def int_seq(t):
 
 
 class SLow(Sym):
-    """A Python int observed only modulo 2**W ("low-W mode", assumption A-BITS): t is BitVec(W) = the low W bits.
+    """A Python int represented by a bit-vector.
 
-    Sound for ring operations (+ - * ^ | & ~), left shifts by constants, and (x >> s) & m with m < 2**(W-s):
-    two's-complement truncation is a homomorphism for exactly those.  Everything else is Unsupported.
+    ub is None  ("low-W mode", A-BITS): only the low W bits are known; sound for ring operations (+ - * ^ | & ~),
+                left shifts by constants and (x >> s) & m with m < 2**(W-s); anything else is Unsupported.
+    ub = N      ("exact"): the true value is known to satisfy 0 <= value <= N < 2**W, so the vector *is* the value;
+                comparisons, truthiness, conversion back to a mathematical int and right shifts are then exact.
+                ub is propagated conservatively through every operation (lost when it would reach 2**W).
     """
-    __slots__ = ()
-    W = 64
+    __slots__ = ('ub',)
+
+    def __init__(self, t, ub=None):
+        self.t = t
+        self.ub = ub
 
     @staticmethod
     def of(v, W=64):
         if isinstance(v, SLow):
-            return v
+            if v.t.size() == W:
+                return v
+            if v.ub is not None and v.t.size() < W:
+                return SLow(z3.ZeroExt(W - v.t.size(), v.t), v.ub)
+            raise Unsupported('mixing bit-vector widths')
+        if isinstance(v, _SLowShifted):
+            raise Unsupported('low-mode right shift must be followed by a mask of the known bits')
         if isinstance(v, bool):
             v = int(v)
         if isinstance(v, int):
-            return SLow(z3.BitVecVal(v % (1 << W), W))
+            return SLow(z3.BitVecVal(v % (1 << W), W), v if 0 <= v < (1 << W) else None)
         if isinstance(v, (SInt, SBool)):
             return SLow(z3.Int2BV(as_int_term(v), W))
-        raise Unsupported('cannot view %r in low-%d mode' % (type(v).__name__, W))
+        raise Unsupported('cannot view %r as a bit-vector' % (type(v).__name__,))
 
     def _w(self):
         return self.t.size()
 
     def _o(self, o):
+        if isinstance(o, (SInt, SBool)) and self.ub is not None:
+            try:
+                return exact_bv(_ctx(), o, self._w())      # keep exactness when the other operand is provably bounded
+            except Unsupported:
+                return SLow.of(o, self._w())
         if isinstance(o, (SLow, int, SInt, SBool)) and not isinstance(o, float):
-            return SLow.of(o, self._w()).t
+            return SLow.of(o, self._w())
         return None
 
-    def _bin(self, o, f):
-        ot = self._o(o)
-        if ot is None:
-            return NotImplemented
-        return SLow(f(self.t, ot))
+    def _cap(self, ub):
+        return ub if (ub is not None and 0 <= ub < (1 << self._w())) else None
 
-    def __add__(self, o): return self._bin(o, lambda a, b: a + b)
-    __radd__ = __add__
-    def __sub__(self, o): return self._bin(o, lambda a, b: a - b)
-    def __rsub__(self, o): return self._bin(o, lambda a, b: b - a)
-    def __mul__(self, o): return self._bin(o, lambda a, b: a * b)
-    __rmul__ = __mul__
-    def __xor__(self, o): return self._bin(o, lambda a, b: a ^ b)
-    __rxor__ = __xor__
-    def __or__(self, o):
-        ot = self._o(o)
-        if ot is None:
+    def _bin(self, o, f, fub):
+        oo = self._o(o)
+        if oo is None:
             return NotImplemented
-        rot = _as_rotate(self.t, ot)
+        ub = None
+        if self.ub is not None and oo.ub is not None:
+            ub = self._cap(fub(self.ub, oo.ub))
+        return SLow(f(self.t, oo.t), ub)
+
+    @staticmethod
+    def _bitsub(a, b):
+        return (1 << max(a.bit_length(), b.bit_length())) - 1
+
+    def __add__(self, o): return self._bin(o, lambda a, b: a + b, lambda a, b: a + b)
+    __radd__ = __add__
+    def __sub__(self, o): return self._bin(o, lambda a, b: a - b, lambda a, b: None)
+    def __rsub__(self, o): return self._bin(o, lambda a, b: b - a, lambda a, b: None)
+    def __mul__(self, o): return self._bin(o, lambda a, b: a * b, lambda a, b: a * b)
+    __rmul__ = __mul__
+    def __xor__(self, o): return self._bin(o, lambda a, b: a ^ b, SLow._bitsub)
+    __rxor__ = __xor__
+
+    def __or__(self, o):
+        oo = self._o(o)
+        if oo is None:
+            return NotImplemented
+        rot = _as_rotate(self.t, oo.t)
         if rot is None:
-            rot = _as_rotate(ot, self.t)
+            rot = _as_rotate(oo.t, self.t)
+        ub = self._cap(SLow._bitsub(self.ub, oo.ub)) if (self.ub is not None and oo.ub is not None) else None
         if rot is not None:
-            return SLow(rot)
-        return SLow(self.t | ot)
+            return SLow(rot, ub)
+        return SLow(self.t | oo.t, ub)
     __ror__ = __or__
-    def __and__(self, o): return self._bin(o, lambda a, b: a & b)
+
+    def __and__(self, o):
+        oo = self._o(o)
+        if oo is None:
+            return NotImplemented
+        ubs = [u for u in (self.ub, oo.ub) if u is not None]
+        return SLow(self.t & oo.t, min(ubs) if ubs else None)
     __rand__ = __and__
 
     def __neg__(self):
@@ -1033,24 +1098,52 @@ class SLow(Sym):
     def __lshift__(self, o):
         c = concrete_int(o)
         if c is None or c < 0:
-            raise Unsupported('low-mode shift by symbolic amount')
+            raise Unsupported('bit-vector shift by symbolic amount')
         if c >= self._w():
+            if self.ub is not None:
+                raise Unsupported('exact bit-vector shifted out of its width')
             return SLow(z3.BitVecVal(0, self._w()))
-        return SLow(self.t << c)
+        return SLow(self.t << c, self._cap(self.ub << c) if self.ub is not None else None)
 
     def __rshift__(self, o):
         c = concrete_int(o)
         if c is None or c < 0:
-            raise Unsupported('low-mode shift by symbolic amount')
+            raise Unsupported('bit-vector shift by symbolic amount')
+        if self.ub is not None:
+            return SLow(z3.LShR(self.t, c) if c < self._w() else z3.BitVecVal(0, self._w()), self.ub >> c)
         return _SLowShifted(self, c)
 
+    def _need_exact(self, what):
+        if self.ub is None:
+            raise Unsupported('%s of an int known only modulo 2**%d' % (what, self._w()))
+
     def __bool__(self):
-        raise Unsupported('truth value of an int known only modulo 2**%d' % self._w())
+        self._need_exact('truth value')
+        return _ctx().branch(self.t != 0)
+
+    def _cmp(self, o, fbv, fint):
+        self._need_exact('comparison')
+        if isinstance(o, SLow) and o.ub is not None:
+            oo = SLow.of(o, self._w())
+            return SBool(fbv(self.t, oo.t))
+        if isinstance(o, int) and not isinstance(o, bool) and 0 <= o < (1 << self._w()):
+            return SBool(fbv(self.t, z3.BitVecVal(o, self._w())))
+        if is_intlike(o):
+            return SBool(fint(z3.BV2Int(self.t, is_signed=False), as_int_term(o)))
+        return NotImplemented
 
     def __eq__(self, o):
-        raise Unsupported('comparison of an int known only modulo 2**%d' % self._w())
+        r = self._cmp(o, lambda a, b: a == b, lambda a, b: a == b)
+        return False if r is NotImplemented else r
 
-    __ne__ = __lt__ = __le__ = __gt__ = __ge__ = __eq__
+    def __ne__(self, o):
+        r = self.__eq__(o)
+        return (not r) if isinstance(r, bool) else SBool(z3.Not(r.t))
+
+    def __lt__(self, o): return self._cmp(o, z3.ULT, lambda a, b: a < b)
+    def __le__(self, o): return self._cmp(o, z3.ULE, lambda a, b: a <= b)
+    def __gt__(self, o): return self._cmp(o, z3.UGT, lambda a, b: a > b)
+    def __ge__(self, o): return self._cmp(o, z3.UGE, lambda a, b: a >= b)
     __hash__ = object.__hash__
 
     def signed(self):
@@ -1059,6 +1152,74 @@ class SLow(Sym):
 
     def unsigned(self):
         return SInt(z3.BV2Int(self.t, is_signed=False))
+
+    def to_int(self):
+        self._need_exact('integer value')
+        return SInt(z3.BV2Int(self.t, is_signed=False))
+
+
+EXACT_W = 128
+
+
+def _mod_pow2(t, k):
+    """t mod 2**k with the reduction pushed through ite and through additions of multiples of 2**k; a bv2int of a
+    vector of at most k bits is already reduced."""
+    m = 1 << k
+    try:
+        if z3.is_int_value(t):
+            return z3.IntVal(t.as_long() % m)
+        bv = _bv_of_bv2int(t)
+        if bv is not None and bv.size() <= k:
+            return t
+        if z3.is_app(t):
+            kind = t.decl().kind()
+            if kind == z3.Z3_OP_ITE:
+                a, b = _mod_pow2(t.arg(1), k), _mod_pow2(t.arg(2), k)
+                if a.eq(b):
+                    return a
+                return z3.If(t.arg(0), a, b)
+            if kind == z3.Z3_OP_ADD:
+                rest = [c for c in t.children() if not (z3.is_int_value(c) and c.as_long() % m == 0)]
+                if len(rest) == 1 and len(rest) < t.num_args():
+                    return _mod_pow2(rest[0], k)
+            if kind == z3.Z3_OP_SUB and t.num_args() == 2 and z3.is_int_value(t.arg(1)) and t.arg(1).as_long() % m == 0:
+                return _mod_pow2(t.arg(0), k)
+    except Exception:
+        pass
+    return t % z3.IntVal(m)
+
+
+def _bv_of_bv2int(t):
+    """If the Int term is bv2int(x) (unsigned), return x."""
+    try:
+        if z3.is_app(t) and t.decl().kind() == z3.Z3_OP_BV2INT:
+            return t.arg(0)
+    except Exception:
+        pass
+    return None
+
+
+def exact_bv(ctx, v, W=EXACT_W):
+    """View a non-negative int as an exact bit-vector; needs a provable upper bound below 2**W."""
+    if isinstance(v, SLow):
+        if v.ub is None:
+            raise Unsupported('int known only modulo 2**W used where its exact value is needed')
+        return SLow.of(v, W)
+    c = concrete_int(v)
+    if c is not None:
+        if 0 <= c < (1 << W):
+            return SLow(z3.BitVecVal(c, W), c)
+        raise Unsupported('constant outside the exact bit-vector range')
+    t = as_int_term(v)
+    bv = _bv_of_bv2int(t)
+    if bv is not None and bv.size() <= W:
+        return SLow(z3.ZeroExt(W - bv.size(), bv) if bv.size() < W else bv, (1 << bv.size()) - 1)
+    for k in (1, 8, 16, 17, 24, 25, 32, 34, 40, 41, 48, 51, 56, 64, 72, 96, 120):
+        if k >= W:
+            break
+        if proves(ctx, z3.And(t >= 0, t < (1 << k))):
+            return SLow(z3.Int2BV(t, W), (1 << k) - 1)
+    raise Unsupported('no provable bound for the operand of a bitwise operation')
 
 
 def _as_rotate(a, b):
@@ -1091,6 +1252,12 @@ class _SLowShifted(object):
         return SLow(z3.LShR(self.x.t, self.s) & z3.BitVecVal(m, W))
 
     __rand__ = __and__
+
+    def __rshift__(self, o):
+        c = concrete_int(o)
+        if c is None or c < 0:
+            raise Unsupported('bit-vector shift by symbolic amount')
+        return _SLowShifted(self.x, self.s + c)
 
     def _bad(self, *a, **k):
         raise Unsupported('low-mode right shift must be followed by a mask of the known bits')
